@@ -11,7 +11,7 @@ CHECKS = {
    design="DESIGN.md section 5 C01"),
  "C02": dict(
    technique="property-based testing: reference line model (bounded-exhaustive short strings + random Unicode texts) and differential end-to-end check of the loc-set to line-set step under generated re-layouts",
-   text="Generated-input search. (a) get_line_number is compared with the model 1 + #LF-before-offset for every string of length <= 7 (thorough: 9) over {a, LF, CR, 2-byte char, blank} at every non-blank offset (complete enumeration) and for random Unicode texts with LF/CRLF/lone-CR mixes; (b) for generated programs in 4 fixed and 2 random layouts (comments, CRLF, multi-byte, no final newline) and all 30 patterns, analyze_for_* must equal the lines of the detector's own locations under the model. Exploration; which location each detector must choose is pinned by C05-C08/C17.",
+   text="Generated-input search. (a) get_line_number is compared with the model 1 + #LF-before-offset for every string of length <= 7 (thorough: 9) over {a, LF, CR, 2-byte char, blank} at every non-blank offset (complete enumeration) and for random Unicode texts with LF/CRLF/lone-CR mixes and for texts with runs of 255..70001 equal symbols at nine alignments; (b) for generated programs in 4 fixed and 2 random layouts (comments, CRLF, multi-byte, no final newline) and all 30 patterns, analyze_for_* must equal the lines of the detector's own locations under the model. Exploration; which location each detector must choose is pinned by C05-C08/C17.",
    note="Trusted: the line model taken from the property statement, solang-parser locations, proptest.",
    design="DESIGN.md section 5 C02"),
  "C04": dict(
@@ -21,7 +21,7 @@ CHECKS = {
    design="DESIGN.md section 5 C04"),
  "C03": dict(
    technique="property-based testing: model-based comparison of analyze_dir with the union of per-file analyses over generated directory trees and creation (= listing) orders",
-   text="Generated-input search. Tape-decoded directory trees (depth <= 3, eligible files from a pool where most patterns fire, inert files, same base names in several directories) are created on tmpfs in a generated creation order, which fixes the listing order; for a generated pattern subset and order, analyze_dir of all three categories must equal, as a multiset of (pattern, file, line set), the harness' own per-file analysis of the spec. A sample of trees also goes through the binary and the report parser. Exploration over trees and listing orders.",
+   text="Generated-input search. Tape-decoded directory trees (depth <= 3, eligible files from a pool where most patterns fire, inert files, same base names in several directories) are created on tmpfs in a generated creation order, which fixes the listing order; for a generated pattern subset and order, analyze_dir of all three categories must equal, as a multiset of (pattern, file, line set), the harness' own per-file analysis of the spec (files reached only through a symbolic link to a directory are optional, but all-or-nothing per file); fixed deep (5..40 levels) and wide (300 files) shapes, hard-linked, white-space-only and lone-CR files are included. A sample of trees also goes through the binary and the report parser. Exploration over trees and listing orders.",
    note="Trusted: analyze_for_* as the per-file reference named by the property, the tree materialiser, tmpfs listing order only for classification.",
    design="DESIGN.md section 5 C03"),
  "C10": dict(
@@ -75,8 +75,8 @@ CHECKS = {
    note="Trusted: the version model (lexicographic triple comparison) and the reference site finders in refmodel/detect.rs.",
    design="DESIGN.md section 5 C09, section 8.5"),
  "C15": dict(
-   technique="property-based testing over call histories (vec of operations + interpreter) against a single-call baseline; concurrent stress phase",
-   text="Generated-input search over histories: 3-14 library operations (per-file analyses with arbitrary file numbers and repetitions, directory analyses with the file among varying siblings, positions and pattern selections) on a pool of files that share state-variable names and differ in version and SafeMath usage; every (file, pattern) result inside the history must equal the baseline of one isolated call; 16 threads then issue thousands of concurrent calls compared with the sequential baseline. Exploration; the thread schedule is not controlled (stress only).",
+   technique="property-based testing over call histories (vec of operations + interpreter) against a single-call baseline; concurrent stress and barrier-released cold-start phases; differential across fresh child processes that analyse the same pool in different orders",
+   text="Generated-input search over histories: 3-14 library operations (per-file analyses with arbitrary file numbers and repetitions, directory analyses with the file among varying siblings, positions and pattern selections) on a pool of files that share state-variable names and differ in version and SafeMath usage; every (file, pattern) result inside the history must equal the baseline of one isolated call; 16 threads then issue thousands of concurrent calls compared with the sequential baseline; never-seen texts are analysed for the first time by 16 threads released together by a barrier and compared with the sequential verdict taken afterwards; the seeded pool is analysed by several fresh child processes of the harness, each in another order, and all verdicts must agree (process-wide state set once and never reset is invisible inside one process). Exploration; the thread schedule is not controlled (stress only).",
    note="Trusted: the baseline call itself (its correctness is C05-C09's business); OS scheduler for the concurrent phase.",
    design="DESIGN.md section 5 C15"),
  "C17": dict(
